@@ -9,6 +9,11 @@ namespace
         static constexpr bool port = false;
         template <class T, size_t N> using vec = igris::static_vector<T, N>;
         template <size_t N> using str = igris::static_string<N>;
+        // the stoi family exists for the std_portable.h twin only
+        template <class S> static int stoi_(const S &) { return 0; }
+        template <class S> static long stol_(const S &) { return 0; }
+        template <class S> static long long stoll_(const S &) { return 0; }
+        template <class S> static double stod_(const S &) { return 0; }
     };
 }
 #define C14_TWIN TwinC
